@@ -61,8 +61,9 @@ def compose_configs(tier, seed):
         return [spine_config('depth1-fullpool', wins[:4], 1, ALL_OPS, FULL_POOL | {'focusall'}, semlen=2),
                 spine_config('depth2-leaves', wins[:1], 2, ALL_OPS - {'enclose'}, set(), quants=QUANTS_TWO, names=())] + \
             random_term_configs(tier, seed) + test_suite_term_configs()
-    return [spine_config('depth1-fullpool', wins, 1, ALL_OPS | {'cond'}, FULL_POOL | {'focusall', 'lit3'}, semlen=2),
-            spine_config('depth2-fullpool', wins[:5], 2, ALL_OPS, FULL_POOL),
+    return [spine_config('depth1-fullpool', wins, 1, ALL_OPS | {'cond'}, FULL_POOL | {'focusall', 'lit3'}),
+            spine_config('depth1-calibration', wins[:8], 1, ALL_OPS, FULL_POOL | {'focusall'}, semlen=3),
+            spine_config('depth2-fullpool', wins[:3], 2, ALL_OPS, FULL_POOL),
             spine_config('depth3-leaves', wins[:2], 3, ALL_OPS - {'enclose'}, set(), quants=QUANTS_TWO, names=())] + \
         random_term_configs(tier, seed) + test_suite_term_configs()
 
